@@ -30,6 +30,8 @@ def check(run, prog, tier):
     run.rule("C19-B", "every view is a sum over exactly the cells of its class", minimum=9)
     run.rule("C19-C", "add = read cell, add, write the same cell - or refuse (finite evaluation)", minimum=20)
     run.rule("C19-D", "resolution conversions only descend and sum over the partition", minimum=12)
+    run.rule("C19-G", "stored cells own their arrays and are not handed out: additions store copies, spectra built from "
+                      "the response get copies", minimum=6)
     run.rule("C19-F", "reading a view never writes into the storage: accumulators of the view helpers own their "
                       "array (path-sensitive ownership states)", minimum=8)
     run.rule("C19-E", "the storage-resolution label changes only with the data it describes (who may write it, "
@@ -41,7 +43,49 @@ def check(run, prog, tier):
     rule_D(run, prog, m)
     rule_E(run, prog, m)
     rule_F(run, prog, m)
+    rule_G(run, prog, m)
     run.extra["exhaustive"] = True
+
+
+def rule_G(run, prog, m):
+    """The stored total is the sum of what was added only if nobody else can write into the stored
+    arrays: (i) the first addition to a cell must store an array of its own, not the caller's array (a
+    calculator that adds one array under two signals, or reuses its buffer, otherwise changes or
+    double-counts what is stored; devide_by() then divides a shared array twice); (ii) a spectrum object
+    created from the response must get a copy, not a slice view, of the stored array."""
+    rid = "C19-G"
+    cls = m.classes["TwoDSpectrumBase"]
+    f = cls.methods["_add_data"]
+    par = f.node.args.args[1].arg
+    stores = [n for n in walk_no_nested(f.node) if isinstance(n, ast.Assign) and norm(n.targets[0]) == "self.d__data"]
+    if len(stores) < 6:
+        raise AnalysisError("_add_data: %d stores into the storage (10 confirmed)" % len(stores))
+
+    def fresh(e):
+        if isinstance(e, ast.BinOp):
+            return True
+        if isinstance(e, ast.Call) and call_name(e) in ("array", "copy", "deepcopy", "zeros", "asarray_chkfinite"):
+            return call_name(e) != "asarray"
+        return False
+    for k, st in enumerate(stores):
+        run.obligation(rid, "TwoDSpectrumBase._add_data", fresh(st.value), key="stores-own-array:%d:%s" % (k, norm(st.value)[:30]),
+                       message="the addition stores %s itself: the stored cell is the caller's array (and the same array "
+                               "when it is added under two keys)" % norm(st.value), loc=f.loc(st),
+                       sample={"store": norm(st)[:60]})
+    resp = m.classes.get("TwoDResponse")
+    n_out = 0
+    for nme, g in sorted(resp.methods.items()):
+        for c in [x for x in walk_no_nested(g.node) if isinstance(x, ast.Call) and call_name(x) in ("set_data", "TwoDSpectrum", "PumpProbeSpectrum")]:
+            for a in list(c.args) + [k.value for k in c.keywords]:
+                if any(isinstance(x, ast.Attribute) and x.attr in ("d__data", "_d__data") for x in ast.walk(a)):
+                    n_out += 1
+                    ok = fresh(a) or (isinstance(a, ast.Call) and call_name(a) in ("real", "imag", "abs"))
+                    run.obligation(rid, "TwoDResponse." + nme, ok, key="hands-out-copy:" + norm(a)[:30],
+                                   message="%s passes %s on: the new object shares memory with the stored array, in-place "
+                                           "operations on it change the response" % (nme, norm(a)), loc=g.loc(c),
+                                   sample={"call": norm(c)[:60]})
+    if n_out < 1:
+        raise AnalysisError("no spectrum construction from stored data found in TwoDResponse")
 
 
 def rule_F(run, prog, m):
@@ -474,7 +518,10 @@ def rule_C(run, prog, m):
         tag_forbidden = norm(tagtest.test) == "tag is not None" and any(isinstance(x, ast.Raise) for x in tagtest.body)
         # the read-modify-write
         rmw = [norm(s) for s in ast.walk(inner_if) if isinstance(s, ast.stmt)]
-        ok = "odata = self.d__data" in rmw and "self.d__data = odata + data" in rmw and "self.d__data = data" in rmw
+        first = {"self.d__data = data", "self.d__data = numpy.array(data)", "self.d__data = data.copy()",
+                 "self.d__data = numpy.copy(data)"}
+        ok = "odata = self.d__data" in rmw and ("self.d__data = odata + data" in rmw or "self.d__data = data + odata" in rmw) \
+            and bool(first & set(rmw))
         run.obligation(rid, "TwoDSpectrumBase._add_data[%s]" % A, ok, key="rmw",
                        message="adding must read the addressed data, add, and write it back", loc=add.loc(node),
                        sample={"added_resolution": A})
